@@ -1,8 +1,14 @@
 (* props/C09.v -- C09: partial reads equal the same restriction of the full read. *)
-From Geff Require Import Base Dtype Vlen Tree Validate Write Read ReadMaskLemmas.
+From Geff Require Import Base Dtype Vlen Tree Validate Write Read ReadMaskLemmas RestrictSpec.
 From Geff.Gen Require Import Consts.
 Open Scope string_scope.
 Open Scope list_scope.
+
+(* Masks have one entry per stored node / edge.  The implementation raises on a mask of any other length (zarr refuses the
+   selection); the model's row selection would truncate instead, so every statement about masks below is made for fitting masks
+   only -- the premise is not needed by the proofs, it is there so that the statements are true of the code. *)
+Definition fits (a : arr) (m : option (list bool)) : Prop :=
+  match m with None => True | Some l => List.length l = hd 0%nat (a_shape a) end.
 
 (* For every store, every choice of property names and every node/edge mask: building with the masks gives
    exactly `restrict` of the graph built without masks -- the kept nodes in stored order, the selected edges whose
@@ -13,8 +19,9 @@ Theorem C09_restrict : forall rd nnames enames nm em gfull,
   store_ok rd (match nnames with Some l => l | None => rd_nnames rd end)
               (match enames with Some l => l | None => rd_enames rd end) ->
   build rd nnames enames None None = Ok gfull ->
+  fits (g_nids gfull) nm -> fits (g_eids gfull) em ->
   build rd nnames enames nm em = Ok (restrict gfull nm em).
-Proof. exact build_restrict. Qed.
+Proof. intros rd nnames enames nm em gfull Hs Hb _ _. exact (build_restrict rd nnames enames nm em gfull Hs Hb). Qed.
 Print Assumptions C09_restrict.
 
 (* no returned edge refers to a node that was not returned *)
@@ -22,6 +29,27 @@ Theorem C09_closed : forall g keep em x,
   In x (a_flat (g_eids (restrict g (Some keep) em))) -> In x (a_flat (g_nids (restrict g (Some keep) em))).
 Proof. exact restrict_closed. Qed.
 Print Assumptions C09_closed.
+
+(* `restrict` read declaratively, by index (RestrictSpec.v; nothing of build's own helpers on the right-hand side): under a node
+   mask the returned edge rows are EXACTLY the stored rows that the edge mask selects (when one is given) and whose endpoints are
+   all among the returned node ids; the returned node ids are exactly the stored ids whose position is flagged *)
+Theorem C09_edges_exact : forall g keep em r,
+  let kept := a_flat (g_nids (restrict g (Some keep) em)) in
+  let mask := match em with Some m => and_masks m (edges_kept (g_eids g) kept) | None => edges_kept (g_eids g) kept end in
+  a_flat (g_eids (restrict g (Some keep) em)) = List.concat (select mask (erows (g_eids g))) /\
+  (In r (select mask (erows (g_eids g))) <->
+   exists j, nth_error (erows (g_eids g)) j = Some r /\
+             match em with Some m => nth_error m j = Some true | None => True end /\
+             forall x, In x r -> In x kept).
+Proof. exact restrict_edges_exact. Qed.
+Print Assumptions C09_edges_exact.
+
+Theorem C09_nodes_exact : forall g keep em x,
+  row_size (g_nids g) = 1%nat ->
+  In x (a_flat (g_nids (restrict g (Some keep) em))) <->
+  exists i, nth_error keep i = Some true /\ nth_error (erows (g_nids g)) i = Some [x].
+Proof. exact restrict_nodes_exact. Qed.
+Print Assumptions C09_nodes_exact.
 
 (* property subsets: exactly the requested properties are returned, the metadata describes exactly them, and each
    returned property is the decoding of its own stored group (it does not depend on which other names were asked) *)
@@ -41,8 +69,9 @@ Print Assumptions C09_names.
 Theorem C09_prop : forall zp keep pm p,
   (pm_varlength pm = true -> wf_arr (zp_values zp) = true /\ exists n rest, a_shape (zp_values zp) = n :: rest) ->
   load_prop zp None pm = Ok p ->
+  fits (zp_values zp) (Some keep) ->
   load_prop zp (Some keep) pm = Ok (mask_prop (Some keep) p).
-Proof. exact load_prop_mask. Qed.
+Proof. intros zp keep pm p Hz Hl _. exact (load_prop_mask zp keep pm p Hz Hl). Qed.
 Print Assumptions C09_prop.
 
 (* non-vacuity: a stored 3-node graph with a masked var-length property; masking nodes [1;0;1] keeps nodes 5,7,
@@ -107,10 +136,11 @@ Print Assumptions C09_sm_build.
 Theorem C09_sm_build_full : forall rd gall ops nm em,
   rd_ok rd -> store_ok rd (rd_nnames rd) (rd_enames rd) ->
   build rd None None None None = Ok gall ->
+  fits (g_nids gall) nm -> fits (g_eids gall) em ->
   let s := final (sm_init rd) ops in
   build_held s nm em =
   Ok (restrict (restrict_names gall (first_occ (flat_map (nreq rd) ops)) (first_occ (flat_map (ereq rd) ops))) nm em).
-Proof. exact sm_build_full. Qed.
+Proof. intros rd gall ops nm em Hr Hs Hb _ _. exact (sm_build_full rd gall ops nm em Hr Hs Hb). Qed.
 Print Assumptions C09_sm_build_full.
 
 Theorem C09_sm_init_ok : forall k s v ln le rd, reader_init_listed k s v ln le = Ok rd -> rd_ok rd.
@@ -121,8 +151,9 @@ Print Assumptions C09_sm_init_ok.
 Theorem C09_sm_restrict : forall rd ops nm em gfull,
   let s := final (sm_init rd) ops in
   store_ok rd (akeys (rs_np s)) (akeys (rs_ep s)) ->
-  build_held s None None = Ok gfull -> build_held s nm em = Ok (restrict gfull nm em).
-Proof. exact reachable_restrict. Qed.
+  build_held s None None = Ok gfull -> fits (g_nids gfull) nm -> fits (g_eids gfull) em ->
+  build_held s nm em = Ok (restrict gfull nm em).
+Proof. intros rd ops nm em gfull s Hs Hb _ _. exact (reachable_restrict rd ops nm em gfull Hs Hb). Qed.
 Print Assumptions C09_sm_restrict.
 
 (* the one-shot function is the special case  init; read_node_props; read_edge_props; build  -- for every name
